@@ -1,57 +1,103 @@
 /* VERIF-UNIT
 {
  "name": "icount_list_get",
- "props": ["C02", "C01"],
+ "props": [
+  "C02",
+  "C01"
+ ],
  "level": "U",
- "tier": "wip",
+ "tier": "quick",
  "harness": "h_icl_get",
- "enforce": ["get_inode_count"],
+ "enforce": [
+  "get_inode_count"
+ ],
  "loop_contracts": true,
- "defines": ["EXT2_CUSTOM_MEMORY_ROUTINES", "ICL_GET"],
+ "defines": [
+  "EXT2_CUSTOM_MEMORY_ROUTINES",
+  "ICL_GET"
+ ],
  "unwind": 10,
  "unwind_reason": "no loop of the real code is unwound (in-place loop contract on the binary search); 10 covers the loops of the contract-instrumentation library",
- "functions": ["lib/ext2fs/icount.c:get_inode_count", "lib/ext2fs/icount.c:get_icount_el"],
- "assumes": ["sorted-list mode (fullmap == NULL, tdb == NULL); count <= size <= 2^30 entries (the real code indexes with int)",
-	     "well_formed (strictly ascending inode numbers) is a universally quantified precondition; it enters as INSTANCES: at the lower bounds of the operation inode and of the ghost inode, at the ghost index and its predecessor, at the last entry, at the cursor, at last_lookup, and at every entry the binary search probes (ghost statement VERIF_GHOST_GET_ICOUNT_EL_PROBE = assume of the instance at mid; the list is not written by the search)",
-	     "needs the anchors of hooks-pending/ds.diff in lib/ext2fs/icount.c"],
- "native": false
+ "functions": [
+  "lib/ext2fs/icount.c:get_inode_count",
+  "lib/ext2fs/icount.c:get_icount_el"
+ ],
+ "assumes": [
+  "sorted-list mode (fullmap == NULL, tdb == NULL); count <= size <= 2^30 entries (the real code indexes with int)",
+  "well_formed (strictly ascending inode numbers) is a universally quantified precondition; it enters as INSTANCES: at the lower bounds of the operation inode and of the ghost inode, at the ghost index and its predecessor, at the last entry, at the cursor, at last_lookup, and at every entry the binary search probes (ghost statement VERIF_GHOST_GET_ICOUNT_EL_PROBE = assume of the instance at mid; the list is not written by the search)",
+  "needs the anchors of hooks-pending/ds.diff in lib/ext2fs/icount.c"
+ ],
+ "native": false,
+ "tier_after_hooks": "quick"
 }
 */
 /* VERIF-UNIT
 {
  "name": "icount_list_set_room",
- "props": ["C02", "C01"],
+ "props": [
+  "C02",
+  "C01"
+ ],
  "level": "U",
- "tier": "wip",
+ "tier": "quick",
  "harness": "h_icl_set",
- "enforce": ["set_inode_count"],
+ "enforce": [
+  "set_inode_count"
+ ],
  "loop_contracts": true,
- "defines": ["EXT2_CUSTOM_MEMORY_ROUTINES", "ICL_SET", "ICL_SCEN_ROOM"],
+ "defines": [
+  "EXT2_CUSTOM_MEMORY_ROUTINES",
+  "ICL_SET",
+  "ICL_SCEN_ROOM"
+ ],
  "unwind": 10,
  "unwind_reason": "no loop of the real code is unwound (in-place loop contract on the binary search); 10 covers the loops of the contract-instrumentation library",
- "functions": ["lib/ext2fs/icount.c:set_inode_count", "lib/ext2fs/icount.c:get_icount_el", "lib/ext2fs/icount.c:insert_icount_el"],
- "assumes": ["as icount_list_get; scenario 'room': count < size (the resize is unreachable: obligation); count == size is icount_list_set_grow",
-	     "memmove of the list by a ghost-index specification (C standard semantics at the ghost index, rest of the object havocked)"],
- "native": false
+ "functions": [
+  "lib/ext2fs/icount.c:set_inode_count",
+  "lib/ext2fs/icount.c:get_icount_el",
+  "lib/ext2fs/icount.c:insert_icount_el"
+ ],
+ "assumes": [
+  "as icount_list_get; scenario 'room': count < size (the resize is unreachable: obligation); count == size is icount_list_set_grow",
+  "memmove of the list by a ghost-index specification (C standard semantics at the ghost index, rest of the object havocked)"
+ ],
+ "native": false,
+ "tier_after_hooks": "quick"
 }
 */
 /* VERIF-UNIT
 {
  "name": "icount_list_set_grow",
- "props": ["C02", "C01"],
+ "props": [
+  "C02",
+  "C01"
+ ],
  "level": "U",
- "tier": "wip",
+ "tier": "quick",
  "harness": "h_icl_set",
- "enforce": ["set_inode_count"],
+ "enforce": [
+  "set_inode_count"
+ ],
  "loop_contracts": true,
- "defines": ["EXT2_CUSTOM_MEMORY_ROUTINES", "ICL_SET", "ICL_SCEN_GROW"],
+ "defines": [
+  "EXT2_CUSTOM_MEMORY_ROUTINES",
+  "ICL_SET",
+  "ICL_SCEN_GROW"
+ ],
  "unwind": 10,
  "unwind_reason": "no loop of the real code is unwound (in-place loop contract on the binary search); 10 covers the loops of the contract-instrumentation library",
- "functions": ["lib/ext2fs/icount.c:set_inode_count", "lib/ext2fs/icount.c:get_icount_el", "lib/ext2fs/icount.c:insert_icount_el"],
- "assumes": ["as icount_list_get; scenario 'grow': count == size; the new size is whatever insert_icount_el computes (float estimate from the last inode number, at least size + 100)",
-	     "realloc / memmove of the list by ghost-index specifications (C standard semantics at the ghost index; realloc may fail)",
-	     "1 <= every inode number <= num_inodes (the public operations check this before they reach the list); the float -> unsigned conversion of the size estimate is in range for num_inodes < 2^31 (see report: for num_inodes close to 2^32 the conversion of 4294967296.0f is undefined)"],
- "native": false
+ "functions": [
+  "lib/ext2fs/icount.c:set_inode_count",
+  "lib/ext2fs/icount.c:get_icount_el",
+  "lib/ext2fs/icount.c:insert_icount_el"
+ ],
+ "assumes": [
+  "as icount_list_get; scenario 'grow': count == size; the new size is whatever insert_icount_el computes (float estimate from the last inode number, at least size + 100)",
+  "realloc / memmove of the list by ghost-index specifications (C standard semantics at the ghost index; realloc may fail)",
+  "1 <= every inode number <= num_inodes (the public operations check this before they reach the list); the float -> unsigned conversion of the size estimate is in range for num_inodes < 2^31 (see report: for num_inodes close to 2^32 the conversion of 4294967296.0f is undefined)"
+ ],
+ "native": false,
+ "tier_after_hooks": "quick"
 }
 */
 /*
